@@ -165,6 +165,28 @@ def special_designs():
             py4hw.Reg(dut, 'r', d, q, reset=r, reset_value=3)
             return [d, r], [q]
         add('Reg(wide reset %d)' % ew, f, True)
+    # block constants taken from a Parameter object owned by an enclosing module (parent, grandparent, great-grandparent of the
+    # block), with and without an unrelated parameter of the same name on the block's own parent
+    for kind in ('ShiftLeftConstant', 'ShiftRightConstant'):
+        for levels in (0, 1, 2):
+            for n, own in [(3, None), (3, 1), (1, 2), (0, 5), (5, 5)]:
+                def f(hw, dut, kind=kind, levels=levels, n=n, own=own):
+                    a = hw.wire('a', 12); r = hw.wire('r', 12)
+                    owner = _PLevel(dut, 'owner', a, r)
+                    owner.addParameter('N', n)
+                    inner = owner
+                    for k in range(levels):
+                        inner = _PLevel(inner, 'lvl%d' % k, a, r)
+                    src = a
+                    if own is not None and inner is not owner:
+                        inner.addParameter('N', own)
+                        t = inner.wire('t', 12); u = inner.wire('u', 12)
+                        py4hw.ShiftRightConstant(inner, 'pre', a, inner.getParameter('N'), t)
+                        py4hw.ShiftLeftConstant(inner, 'undo', t, inner.getParameter('N'), u)
+                        src = u
+                    getattr(py4hw, kind)(inner, 'sh', src, owner.getParameter('N'), r)
+                    return [a], [r]
+                add('%s(Parameter of level -%d, N=%d, own N=%s)' % (kind, levels, n, own), f)
     for w, v in [(2, 5), (8, -1), (4, 16), (8, 256 + 7), (3, -3)]:
         def f(hw, dut, w=w, v=v):
             a = hw.wire('a', w); r = hw.wire('r', 1)
@@ -258,6 +280,18 @@ def special_designs():
     return out
 
 
+def _PLevel(parent, name, a, r):
+    """A structural level with one input and one output port, for the Parameter-owned-constant designs."""
+    import py4hw
+
+    class PLevel(py4hw.Logic):
+        def __init__(self, parent, name, a, r):
+            super().__init__(parent, name)
+            self.addIn('a', a)
+            self.addOut('r', r)
+    return PLevel(parent, name, a, r)
+
+
 def _low3(parent, w):
     import py4hw
     r = parent.wire('low3', 3)
@@ -276,6 +310,8 @@ def special_class(label):
         return head + '(result narrower)'
     if 'out-of-range' in label:
         return head + '(out-of-range constant)'
+    if '(Parameter of level' in label:
+        return head + '(constant from a Parameter of an enclosing module)'
     return head
 
 
